@@ -1391,7 +1391,7 @@ theorem readChunk_specT (F : Fmt) (AL : Bytes → Prop) (L : LawsT F AL) (mode :
     | none => file.drop lp = [] ∨ F.complete (addNL (file.drop lp)) = false
     | some (out, s') =>
       (∃ n, 0 < n ∧ out = (file.drop lp).take n ∧ out.length = n ∧ out.getLast? = some NL ∧
-        Inv file s' (lp + n) ∧ lp + n ≤ file.length ∧ AL out) ∨
+        Inv file s' (lp + n) ∧ lp + n ≤ file.length ∧ AL out ∧ s'.finished = false) ∨
       (∃ n, 0 < n ∧ n ≤ (addNL (file.drop lp)).length ∧ out = (addNL (file.drop lp)).take n ∧
         out.getLast? = some NL ∧ F.complete ((addNL (file.drop lp)).drop n) = false ∧
         file.drop lp ≠ [] ∧ Inv file s' file.length ∧ s'.finished = true ∧ AL out) := by
@@ -1436,7 +1436,7 @@ theorem readChunk_specT (F : Fmt) (AL : Bytes → Prop) (L : LawsT F AL) (mode :
       have hout : chunk.take n = r.take n := by
         rw [hchunk, List.take_take]; congr 1; omega
       have hdd : r.drop n = file.drop (lp + n) := by rw [hr, List.drop_drop]
-      refine ⟨n, hcp.1, ?_, ?_, ?_, ?_, by omega, ?_⟩
+      refine ⟨n, hcp.1, ?_, ?_, ?_, ?_, by omega, ?_, ?_⟩
       · simp only [← hn]; exact hout
       · simp only [← hn]; rw [List.length_take]; omega
       · simp only [← hn]; exact hnl
@@ -1450,6 +1450,8 @@ theorem readChunk_specT (F : Fmt) (AL : Bytes → Prop) (L : LawsT F AL) (mode :
           simp only [hcl]
           rw [hchunk, List.drop_take, ← hdd]
       · simp only [← hn]; exact hal
+      · simp only [Bool.false_eq_true, ↓reduceIte]
+        cases mode <;> rfl
 
 theorem readChunk_finishedT (F : Fmt) (AL : Bytes → Prop) (L : LawsT F AL) (mode : Mode) (file : Bytes)
     (k : Nat) (hk : 0 < k) (s : St) (hI : Inv file s file.length) :
@@ -1523,7 +1525,7 @@ theorem readLoop_specT (F : Fmt) (AL : Bytes → Prop) (L : LawsT F AL) (mode : 
     | some res =>
       obtain ⟨out, s'⟩ := res
       intro h
-      rcases h with ⟨n, hn, hout, hlen, hnl, hI', hle', hal⟩ | ⟨n, hn, hnle, hout, hnl, hrest, hne, hI', hfin', hal⟩
+      rcases h with ⟨n, hn, hout, hlen, hnl, hI', hle', hal, _⟩ | ⟨n, hn, hnle, hout, hnl, hrest, hne, hI', hfin', hal⟩
       · have hone : out ≠ [] := by intro e; rw [e] at hlen; simp at hlen; omega
         have hemp : out.isEmpty = false := by simp [hone]
         simp only [hemp, Bool.false_eq_true, ↓reduceIte, List.flatten_cons, List.mem_cons, forall_eq_or_imp]
@@ -1555,7 +1557,9 @@ theorem readLoop_specT (F : Fmt) (AL : Bytes → Prop) (L : LawsT F AL) (mode : 
 
 /-- **C01.readAll_bytesT** — no hypothesis on the file: the delivered chunks followed by what is never delivered
 are the terminated file; what is never delivered holds no complete entry; every chunk is non-empty, ends after
-a newline and is entry-aligned. -/
+a newline and is entry-aligned. For formats obeying the six `LawsT`; `marker_nil` restricts this to the k-line
+formats (delimited, two-line FASTA, FASTQ) — wrapped FASTA appends a marker at end of file and is covered by the
+well-formed development only. -/
 theorem readAll_bytesT (F : Fmt) (AL : Bytes → Prop) (L : LawsT F AL) (mode : Mode) (file : Bytes) (k : Nat) (hk : 0 < k) :
     (∃ rest, (readAll F true mode file k).flatten ++ rest = norm file ∧ F.complete rest = false) ∧
     ∀ c ∈ readAll F true mode file k, c ≠ [] ∧ c.getLast? = some NL ∧ AL c := by
@@ -1684,7 +1688,10 @@ namespace C01
 
 /-- **C01.chunks_eq_whole_kLine_any_file** — FASTQ / two-line FASTA / delimited files of ANY content holding at least one
 record's worth of lines: for every chunk size and both modes the chunks of `read_chunks` concatenate to exactly what
-`read()` delivers (no well-formedness hypothesis: a truncated last record is left out by both). -/
+`read()` delivers (no well-formedness hypothesis: a truncated last record is left out by both). The hypothesis `hc` is
+not needed by the Lean statement (`readWhole` is total: below one record it returns `[]`, like the chunks); it is
+there because the code's `read()` raises `IncompleteEntryException` on such files, which `readWhole` does not model
+(C15's `wholeValidateT` does, as `Res.err`). -/
 theorem chunks_eq_whole_kLine_any_file (n : Nat) (hn : 0 < n) (mode : Mode) (file : Bytes) (k : Nat) (hk : 0 < k)
     (hc : n ≤ countNL (norm file)) :
     (readAll (Fmt.kLine n) true mode file k).flatten = readWhole (Fmt.kLine n) file := by
@@ -1702,5 +1709,150 @@ theorem chunks_eq_whole_kLine_any_file (n : Nat) (hn : 0 < n) (mode : Mode) (fil
   rfl
 
 example : (readAll (Fmt.kLine 2) true .carry [62,97,10,65,10,62,98] 3).flatten = readWhole (Fmt.kLine 2) [62,97,10,65,10,62,98] := by decide
+
+end C01
+
+/-! ### the reader's own end-of-file test (sites 1 and 2) sees exactly what is never delivered -/
+namespace C01
+
+theorem isBlank_append (a b : Bytes) : isBlank (a ++ b) = (isBlank a && isBlank b) := by
+  unfold isBlank; simp [List.all_append]
+
+theorem isBlank_addNL (r : Bytes) : isBlank (addNL r) = isBlank r := by
+  unfold addNL
+  split
+  · rfl
+  · rw [isBlank_append]; simp [isBlank, NL]
+
+theorem carry_drop (file : Bytes) (s : St) (lp : Nat) (hI : Inv file s lp) :
+    s.carry ++ file.drop s.pos = file.drop lp := by
+  have h1 := hI.carry
+  have h2 := hI.pos
+  have h3 := List.take_append_drop s.carry.length (file.drop lp)
+  rw [← h1, List.drop_drop, h2] at h3
+  exact h3
+
+/-- what `restOf` is, in terms of the logical position: site 1 = everything from `lp` on; site 2 = the terminated
+remainder behind the delivered buffer -/
+theorem restOf_spec (F : Fmt) (AL : Bytes → Prop) (L : LawsT F AL) (mode : Mode) (file : Bytes)
+    (k : Nat) (hk : 0 < k) (s : St) (lp : Nat) (hI : Inv file s lp) :
+    match readChunk F true mode file k s with
+    | none => restOf F file k s = file.drop lp
+    | some (out, s') => s'.finished = true → restOf F file k s = (addNL (file.drop lp)).drop out.length := by
+  unfold readChunk restOf
+  have hspec := accumulate_specT F file k hk lp (file.length + 2) s.carry.length s.carry s.finished
+    (by rw [hI.pos]; exact hI.le) hI.carry
+    (by intro h; have := hI.fin h; rw [hI.pos]; refine ⟨this.1, ?_⟩; rw [this.2]; rfl)
+    (by omega)
+  rw [hI.pos] at hspec
+  have hfix : ∀ b, fixEnd F b = addNL b := by intro b; unfold fixEnd; rw [L.marker_nil]; simp
+  revert hspec
+  cases hacc : accumulate F true file k (file.length + 2) s.pos s.carry s.finished with
+  | none => intro _; exact carry_drop file s lp hI
+  | some res =>
+    obtain ⟨chunk, pos', fin⟩ := res
+    intro h
+    unfold AccPostT at h
+    obtain ⟨hcomp, _, _, _, hf⟩ := h
+    have hcp := L.cut_pos chunk hcomp
+    cases fin with
+    | true =>
+      intro _
+      obtain ⟨_, _, hchunk⟩ := hf rfl
+      rw [hfix] at hchunk
+      simp only [↓reduceIte, List.length_take]
+      rw [Nat.min_eq_left hcp.2, hchunk]
+    | false =>
+      intro hfin
+      simp only [Bool.false_eq_true, ↓reduceIte] at hfin
+      cases mode <;> simp at hfin
+
+theorem readLoopRest_spec (F : Fmt) (AL : Bytes → Prop) (L : LawsT F AL) (mode : Mode)
+    (file : Bytes) (k : Nat) (hk : 0 < k) :
+    ∀ (fuel : Nat) (s : St) (lp : Nat), Inv file s lp →
+      (lp = 0 ∨ (file.take lp).getLast? = some NL) → lp ≤ file.length → file.length - lp < fuel →
+      ∃ rest, file.take lp ++ (readLoop F true mode file k fuel s).flatten ++ rest = norm file ∧
+        isBlank rest = isBlank (readLoopRest F mode file k fuel s) := by
+  intro fuel
+  induction fuel with
+  | zero => intro s lp _ _ _ hf; omega
+  | succ fuel ih =>
+    intro s lp hI hJ hle hfuel
+    have hspec := readChunk_specT F AL L mode file k hk s lp hI
+    have hrest := restOf_spec F AL L mode file k hk s lp hI
+    unfold readLoop readLoopRest
+    revert hspec hrest
+    cases hrc : readChunk F true mode file k s with
+    | none =>
+      intro h hr
+      simp only [List.flatten_nil, List.append_nil]
+      simp only at hr
+      rw [hr]
+      by_cases hne : file.drop lp = []
+      · refine ⟨[], ?_, by rw [hne]⟩
+        have hlen : file.length ≤ lp := by
+          have := congrArg List.length hne; simp at this; omega
+        rw [List.take_of_length_le hlen, List.append_nil]
+        unfold norm
+        by_cases hf : file = []
+        · simp [hf]
+        · have hne' : file.isEmpty = false := by simp [hf]
+          simp only [hne', Bool.false_eq_true, ↓reduceIte]
+          rcases hJ with h0 | hl
+          · exfalso; apply hf; apply List.eq_nil_of_length_eq_zero; omega
+          · rw [List.take_of_length_le hlen] at hl
+            exact (addNL_of_getLast file hl).symm
+      · refine ⟨addNL (file.drop lp), ?_, isBlank_addNL _⟩
+        rw [← addNL_append _ _ hne, List.take_append_drop]
+        unfold norm
+        have : file ≠ [] := by intro e; rw [e] at hne; simp at hne
+        simp [this]
+    | some res =>
+      obtain ⟨out, s'⟩ := res
+      intro h hr
+      simp only at hr
+      rcases h with ⟨n, hn, hout, hlen, hnl, hI', hle', hal, hnf⟩ | ⟨n, hn, hnle, hout, hnl, hrst, hne, hI', hfin', hal⟩
+      · have hone : out ≠ [] := by intro e; rw [e] at hlen; simp at hlen; omega
+        have hemp : out.isEmpty = false := by simp [hone]
+        simp only [hemp, Bool.false_eq_true, ↓reduceIte, List.flatten_cons, hnf]
+        have hJ' : lp + n = 0 ∨ (file.take (lp + n)).getLast? = some NL := by
+          right
+          rw [take_add', ← hout, getLast?_append_of_ne_nil _ _ hone]; exact hnl
+        obtain ⟨rest, hrest1, hrest2⟩ := ih s' (lp + n) hI' hJ' hle' (by omega)
+        refine ⟨rest, ?_, hrest2⟩
+        rw [← hrest1, take_add', ← hout]; simp [List.append_assoc]
+      · have hone : out ≠ [] := by
+          intro e; rw [e] at hout
+          have := congrArg List.length hout; simp at this; omega
+        have hemp : out.isEmpty = false := by simp [hone]
+        simp only [hemp, Bool.false_eq_true, ↓reduceIte, List.flatten_cons, hfin']
+        have hrestl : readLoop F true mode file k fuel s' = [] := by
+          cases fuel with
+          | zero => rfl
+          | succ f =>
+            unfold readLoop
+            rw [readChunk_finishedT F AL L mode file k hk s' hI']
+        rw [hrestl, hr hfin']
+        simp only [List.flatten_nil, List.append_nil]
+        have holen : out.length = n := by rw [hout, List.length_take]; omega
+        refine ⟨(addNL (file.drop lp)).drop n, ?_, by rw [holen]⟩
+        rw [hout, List.append_assoc, List.take_append_drop, ← addNL_append _ _ hne, List.take_append_drop]
+        unfold norm
+        have : file ≠ [] := by intro e; rw [e] at hne; simp at hne
+        simp [this]
+
+/-- **C01.readAllRest_blank_iff** — for the k-line formats, every file, chunk size and mode: the bytes the reader
+examines when its iteration ends (site 1: the pending chunks; site 2: the final chunk behind its buffer) are blank
+exactly when what was never delivered is blank. Deleting either site from the code changes `readAllRest`, not this
+characterisation of it. -/
+theorem readAllRest_blank_iff (n : Nat) (hn : 0 < n) (mode : Mode) (file : Bytes) (k : Nat) (hk : 0 < k) :
+    isBlank (readAllRest (Fmt.kLine n) mode file k) =
+      isBlank ((norm file).drop (readAll (Fmt.kLine n) true mode file k).flatten.length) := by
+  obtain ⟨rest, h1, h2⟩ := readLoopRest_spec (Fmt.kLine n) _ (kLine_lawsT n hn) mode file k hk (file.length + 2) init 0
+    ⟨by simp [init], by simp [init], by simp [init], by simp [init]⟩ (Or.inl rfl) (by omega) (by omega)
+  simp only [List.take_zero, List.nil_append] at h1
+  unfold readAllRest readAll
+  rw [← h2, ← h1]
+  simp
 
 end C01
